@@ -784,22 +784,25 @@ impl<F: PathFetcher> PathSet<F> {
 
     /// Selects the best path from the cached paths
     ///
+    /// Prefers paths that are not near expiry. If there is none, falls back to the best path
+    /// that is not expired yet, as a path near expiry is still better than no path at all.
+    ///
     /// Expects paths to be ranked already
     fn best_path(&self, now: SystemTime) -> Option<&PathManagerPath> {
         let path_iter = self.internal.cached_paths.iter();
+        let mut best_near_expiry = None;
 
         for path in path_iter {
-            // Only consider paths that are not near expiry
-            if check_path_expiry(&path.path, now, self.config.min_expiry_threshold)
-                != ExpiryState::Valid
-            {
-                continue;
+            match check_path_expiry(&path.path, now, self.config.min_expiry_threshold) {
+                ExpiryState::Valid => return Some(path),
+                ExpiryState::NearExpiry => {
+                    best_near_expiry = best_near_expiry.or(Some(path));
+                }
+                ExpiryState::Expired => {}
             }
-
-            return Some(path);
         }
 
-        None
+        best_near_expiry
     }
 
     /// Returns the entry of the current active path
